@@ -1,4 +1,4 @@
-B='grpcgcp/gcp_balancer.go'; P='grpcgcp/gcp_picker.go'; M='grpcgcp/multiendpoint/multiendpoint.go'
+I='grpcgcp/gcp_interceptor.go'; B='grpcgcp/gcp_balancer.go'; P='grpcgcp/gcp_picker.go'; M='grpcgcp/multiendpoint/multiendpoint.go'
 MUT={
  'c01-bind-overwrite': [(B,'''	if !ok {
 		gb.affinityMap[bindKey] = sc
@@ -123,4 +123,36 @@ MUT={
 		return
 	}
 ''')],
+ 'c12-signal': [(I,"""	cs.Unlock()
+	cs.cond.Broadcast()
+	return cs.ClientStream.SendMsg(m)""","""	cs.Unlock()
+	cs.cond.Signal()
+	return cs.ClientStream.SendMsg(m)""")],
+ 'c12-no-watch': [(I,"""	if ctx.Done() != nil {
+		go cs.watchContext()
+	}""","""	if ctx.Done() == nil {
+		go cs.watchContext()
+	}""")],
+ 'c12-unary-ctx': [(I,"""	ctx = context.WithValue(ctx, gcpKey, gcpCtx)
+
+	return invoker(""","""	ctx = context.WithValue(context.Background(), gcpKey, gcpCtx)
+
+	return invoker(""")],
+ 'c12-recreate': [(I,"""	if cs.ClientStream == nil {
+		ctx := context.WithValue(cs.ctx, gcpKey, &gcpContext{reqMsg: m})""","""	if cs.ClientStream == nil || m != nil {
+		ctx := context.WithValue(cs.ctx, gcpKey, &gcpContext{reqMsg: m})""")],
+ 'c12-closesend-nil': [(I,"""func (cs *gcpClientStream) CloseSend() error {
+	if s := cs.stream(); s != nil {
+		return s.CloseSend()
+	}
+	return nil
+}""","""func (cs *gcpClientStream) CloseSend() error {
+	return cs.ClientStream.CloseSend()
+}""")],
+ 'c12-no-broadcast-on-error': [(I,"""			cs.initStreamErr = err
+			cs.Unlock()
+			cs.cond.Broadcast()
+			return err""","""			cs.initStreamErr = err
+			cs.Unlock()
+			return err""")],
 }
